@@ -19,6 +19,9 @@
 //	    Run: cleartext / encrypted / public-only, binary and JSON, written and
 //	    read back; same keys, ids, statuses, primary, order; primitives of the
 //	    original and the reread handle interoperate.
+//	T|tag|K or E|json text
+//	    the JSON text of a Keyset / EncryptedKeyset through the JSON reader (jsontext.go);
+//	    the model parses the text itself.
 //
 // Observation: what the model must reproduce from the line alone (serialised
 // bytes, field text, handle shape).  The verdict of the direct checks (which
@@ -80,6 +83,8 @@ func run(in string) string {
 		r = runFromParameters(f)
 	case "U":
 		r = runUnserializable(f)
+	case "T":
+		r = runJSONText(f)
 	case "GENFAIL":
 		r = "genfail|chk=" + f[1]
 	default:
@@ -137,6 +142,8 @@ func class(in, obs string) string {
 		return "W/" + f[1] + "/" + f[2][len("google.crypto.tink."):] + "/" + res
 	case "U":
 		return "U/" + f[1] + "/" + f[2]
+	case "T": // JSON text layer: one class per (message, family, outcome)
+		return "T/" + f[2] + "/" + f[1] + "/" + res
 	case "H", "M", "N":
 		n := len(strings.Split(f[7], ";"))
 		fam := ""
